@@ -263,6 +263,10 @@ def _probes(st, inv, rec, oc, win, events, world):
                 hit('par_run2d_equals_current_RUN2D')
         if inv.get('dump') == 'keep' and world.invs.index(inv) > 0:
             hit('invocation_after_previous_invocation')
+            if any(e['callee'].endswith('pickle.load') or e['callee'].endswith('_pickle.load') for e in events):
+                hit('dump_of_previous_invocation_loaded')
+                if '+alt_run' in inv['par']['variant']:
+                    hit('dump_loaded_under_edited_parameter_file')
     else:
         if oc[0] == 'returned':
             hit(entry + '_success')
@@ -441,7 +445,7 @@ def _renumber_par(c):
 
 # ---------------------------------------------------------------------------
 TIERS = {
-    'quick': {'runs': 96, 'deadline': 100.0, 'min_runs': 24},
+    'quick': {'runs': 80, 'deadline': 120.0, 'min_runs': 24},
     'thorough': {'runs': 640, 'deadline': 2700.0, 'min_runs': 100},
 }
 
@@ -490,7 +494,7 @@ ASSUMPTIONS = [
     "KeyboardInterrupt/SystemExit are not injected: the property speaks of errors raised by stages.",
 ]
 
-PROBES = ['template_input_success', 'success_with_RUN2D_unset', 'success_with_RUN1D_unset',
+PROBES = ['dump_of_previous_invocation_loaded', 'dump_loaded_under_edited_parameter_file', 'template_input_success', 'success_with_RUN2D_unset', 'success_with_RUN1D_unset',
           'natural_failure_in_window', 'natural_failure_inside_template_metadata_after_env_set',
           'torn_dump_unpickle_error', 'par_run2d_equals_current_RUN2D',
           'invocation_after_previous_invocation', 'window_score_success', 'window_read_success',
